@@ -14,8 +14,8 @@ EXPR_RS = "prqlc/prqlc/src/semantic/resolver/expr.rs"
 PL_EXPR = "prqlc/prqlc/src/ir/pl/expr.rs"
 P_IDENT = "prqlc/prqlc-parser/src/parser/pr/ident.rs"
 
-LABELS = ["IK1", "IK2", "IK3", "IK4", "IK5", "IK6", "IK7"]
-FUNCTIONS = ["ident_decl_arm"]
+LABELS = ["IK1", "IK2", "IK3", "IK4", "IK5", "IK6", "IK7", "FR1", "FR2", "FR3"]
+FUNCTIONS = ["ident_decl_arm", "finish_head"]
 RLIMIT = 100
 
 ASSUMED = [
@@ -25,13 +25,16 @@ ASSUMED = [
              "uninterpreted; Clone of an identifier / a type / a function / an expression is the identity; Expr::new(kind) is the plain node of that kind; error construction is opaque",
      "keys": ["enum DeclKind", "struct Decl", "struct Resolver", "fn lineage_of_table_decl", "fn fold_function_types", "fn construct_wildcard_include", "fn fold_expr_rec", "fn ty_of_lineage",
               "spec fn ty_of", "spec fn lineage_of", "spec fn wildcard_fields", "spec fn refolded", "fn clone_", "fn expr_new_kind", "fn opaque_error", "struct Func"]},
+    {"what": "maybe_static_eval is external (unit static_eval: it keeps id and span of what it folds): evaluated(e); Option::or has its std meaning", "keys": ["fn maybe_static_eval", "spec fn evaluated", "Option::<T>::or"]},
 ]
 TRUSTED = [
     "oracle (C10 / C16): the resolver binds a name to ONE declaration (resolve_ident: units resolve_guards, name_lookup, module_names); what the expression becomes is decided by the kind of "
     "that declaration: a column -> the identifier with target_id = the column's id; an inferred column -> target_id = the node that declares the input; a table -> the identifier with the "
     "table's lineage and type and no alias; a type -> an error (`expected a value, found a type`); an instance of a relation -> the tuple of its columns.  Lowering turns exactly "
     "target_id into the column reference (unit lower_ident), so a wrong id here is a reference to another column",
-    "the slice drops the rest of Resolver::fold_expr (the other arms; finish_expr_resolve)",
+    "oracle (C16 / C13): a resolved node gets the id generated for it unless it has one already (ids are set once), keeps its own alias and span and otherwise takes the ones of the "
+    "expression it replaces (finish_expr_resolve, FR1-3)",
+    "the slices drop the rest of Resolver::fold_expr (the other arms) and of finish_expr_resolve (type and lineage inference)",
 ]
 
 PRELUDE = r"""
@@ -66,6 +69,10 @@ pub open spec fn plain(k: ExprKind) -> Expr {
     Expr { kind: k, span: None, alias: None, id: None, target_id: None, ty: None, lineage: None, needs_window: false, flatten: false }
 }
 #[verifier::external_body] pub fn expr_new_kind(k: ExprKind) -> (r: Expr) ensures r == plain(k), { unimplemented!() }
+pub uninterp spec fn evaluated(e: Expr) -> Expr;
+pub assume_specification<T>[ Option::<T>::or ](a: Option<T>, b: Option<T>) -> (r: Option<T>)
+    ensures r == (if a is Some { a } else { b }),
+;
 pub struct Resolver { pub in_func_call_name: bool, pub rest: OpaqueT }
 impl Resolver {
     #[verifier::external_body]
@@ -75,6 +82,8 @@ impl Resolver {
     pub fn fold_function_types(&mut self, f: Box<Func>) -> (r: Result<Box<Func>, Error>) ensures final(self).in_func_call_name == old(self).in_func_call_name, { unimplemented!() }
     #[verifier::external_body]
     pub fn construct_wildcard_include(&mut self, fq: &Ident) -> (r: Vec<Expr>) ensures r == wildcard_fields(*fq), final(self).in_func_call_name == old(self).in_func_call_name, { unimplemented!() }
+    #[verifier::external_body]
+    pub fn maybe_static_eval(&mut self, e: Expr) -> (r: Result<Expr, Error>) ensures r is Ok ==> r->Ok_0 == evaluated(e), { unimplemented!() }
     #[verifier::external_body]
     pub fn fold_expr_rec(&mut self, e: Expr) -> (r: Result<Expr, Error>) ensures r is Ok ==> r->Ok_0 == refolded(e), { unimplemented!() }
 }
@@ -122,7 +131,20 @@ def build(X):
               "        // modules, imports, query definitions: the qualified name, nothing else touched\n"
               "        (entry.kind is Module || entry.kind is LayeredModules || entry.kind is QueryDef || entry.kind is Import) ==> (r is Ok && r->Ok_0 == (Expr { kind: ExprKind::Ident(fq_ident), ..node })), // @IK7\n"
               "{\n    let r = " + f.text + ";\n    Ok(r)\n}\n}\n")
-    return PRELUDE + ident.text + "\n" + e.text + "\n" + ek.text + "\n" + SHIMS + f.text + "\n} // verus!\nfn main() {}\n"
+    fh = X.slice(EXPR_RS, "finish_expr_resolve", "let mut r = Box::new(self.maybe_static_eval(expr)?);", "r.span = r.span.or(span);", name="finish_head")
+    fh.text = ("impl Resolver {\npub fn finish_head(&mut self, expr: Expr, id: usize, alias: Option<String>, span: Option<Span>) -> (o: Result<Box<Expr>, Error>)\n"
+               "    ensures\n"
+               "        // C16: the id generated for this node, unless the node has one already\n"
+               "        o is Ok ==> o->Ok_0.id == (if evaluated(expr).id is Some { evaluated(expr).id } else { Some(id) }), // @FR1\n"
+               "        // its own alias and span, else those of the expression it stands for\n"
+               "        o is Ok ==> (o->Ok_0.alias == (if evaluated(expr).alias is Some { evaluated(expr).alias } else { alias })\n"
+               "            && o->Ok_0.span == (if evaluated(expr).span is Some { evaluated(expr).span } else { span })), // @FR2\n"
+               "        // nothing else of the node changes here\n"
+               "        o is Ok ==> (o->Ok_0.kind == evaluated(expr).kind && o->Ok_0.target_id == evaluated(expr).target_id && o->Ok_0.ty == evaluated(expr).ty && o->Ok_0.lineage == evaluated(expr).lineage\n"
+               "            && o->Ok_0.needs_window == evaluated(expr).needs_window && o->Ok_0.flatten == evaluated(expr).flatten), // @FR3\n"
+               "{\n    " + fh.text + "\n    Ok(r)\n}\n}\n")
+    fh.rewrites.append({"rule": "slice", "what": "the first four statements of finish_expr_resolve wrapped as fn finish_head(&mut self, expr, id, alias, span) -> Ok(r)"})
+    return PRELUDE + ident.text + "\n" + e.text + "\n" + ek.text + "\n" + SHIMS + f.text + "\n" + fh.text + "\n} // verus!\nfn main() {}\n"
 
 
 # ----------------------------------------------------------------------------- replay / sweep on the real compiler + SQLite
